@@ -4,6 +4,7 @@ CONSTANTS
   LayoutIds = {1, 2, 3, 4}
   Eols = {"lf", "crlf"}
   Priors = {"none", "expired"}
+  Extras = TRUE
   Rules = {2}
   Scopes = {"rule", "file"}
   OnlyBasePairs = FALSE
